@@ -67,6 +67,61 @@ impl Kind {
     }
 }
 
+/// Boundary values of Ed25519's scalar (mod L) and field (mod p) arithmetic, little endian.
+pub const FIELD_VALUES: u8 = 13;
+const ED_L: [u8; 32] = [0xed, 0xd3, 0xf5, 0x5c, 0x1a, 0x63, 0x12, 0x58, 0xd6, 0x9c, 0xf7, 0xa2, 0xde, 0xf9, 0xde, 0x14, 0, 0, 0, 0, 0, 0, 0, 0, 0, 0, 0, 0, 0, 0, 0, 0x10];
+
+fn add_le(a: &[u8; 32], b: &[u8; 32]) -> [u8; 32] {
+    let mut r = [0u8; 32];
+    let mut c = 0u16;
+    for i in 0..32 {
+        let t = a[i] as u16 + b[i] as u16 + c;
+        r[i] = t as u8;
+        c = t >> 8;
+    }
+    r
+}
+
+fn small(n: u8) -> [u8; 32] {
+    let mut r = [0u8; 32];
+    r[0] = n;
+    r
+}
+
+fn neg1() -> [u8; 32] {
+    [0xff; 32] // -1 mod 2^256: adding it subtracts one
+}
+
+pub fn field_value(v: u8, cur: &[u8; 32]) -> [u8; 32] {
+    let mut p = [0xffu8; 32];
+    p[0] = 0xed;
+    p[31] = 0x7f;
+    match v % FIELD_VALUES {
+        0 => ED_L,
+        1 => add_le(&ED_L, &neg1()),
+        2 => add_le(&ED_L, &small(1)),
+        3 => [0u8; 32],
+        4 => [0xff; 32],
+        5 => p,
+        6 => add_le(&p, &neg1()),
+        7 => add_le(&p, &small(1)),
+        8 => {
+            let mut r = [0xffu8; 32];
+            r[31] = 0x7f;
+            r
+        }
+        9 => {
+            let mut r = [0u8; 32];
+            r[31] = 0x10;
+            r
+        }
+        10 => small(1),
+        // the current value plus L (the classic malleated S) and plus 2L
+        11 => add_le(cur, &ED_L),
+        _ => add_le(&add_le(cur, &ED_L), &ED_L),
+    }
+}
+
 pub const KINDS: [Kind; 12] = [
     Kind::SignOpen,
     Kind::SignVerifyDetached,
@@ -105,6 +160,9 @@ pub enum Fault {
     /// the verifier is handed a corrupted / special public key
     /// (0 zeros, 1 0xff.., 2 identity, 3 y=-1 (order 2), 4 order-4 point, 5 non-canonical y=p, 6 random, 7 one flipped bit)
     PublicKey { kind: u8, bit: usize },
+    /// signature kinds: one 32-byte half of the signature (0 = R, 1 = S) is replaced by a
+    /// boundary value of the scalar / field arithmetic (see `field_value`)
+    FieldValue { half: u8, value: u8 },
 }
 
 impl Fault {
@@ -126,6 +184,7 @@ impl Fault {
             Fault::UnicodeInsert { .. } => "unicode.insert",
             Fault::CharInsert { .. } => "char.insert",
             Fault::PublicKey { .. } => "public.key",
+            Fault::FieldValue { .. } => "field.value",
         }
     }
 }
@@ -197,7 +256,7 @@ impl VerifierWorld {
         let k = self.cfg.kind;
         let wire = match k {
             Kind::SignOpen => {
-                let mut sm = vec![0u8; len + 64];
+                let mut sm = vec![0x5Au8; len + 64];
                 crypto_sign(&mut sm, &msg, &self.sign_sk).expect("sign");
                 sm
             }
@@ -383,6 +442,16 @@ impl VerifierWorld {
                 }
             }
             Fault::PublicKey { .. } => fired = k.overhead() == 64,
+            Fault::FieldValue { half, value } => {
+                if k.overhead() != 64 || w.len() < 64 {
+                    fired = false;
+                } else {
+                    let at = 32 * (*half as usize % 2);
+                    let mut cur = [0u8; 32];
+                    cur.copy_from_slice(&w[at..at + 32]);
+                    w[at..at + 32].copy_from_slice(&field_value(*value, &cur));
+                }
+            }
             Fault::SegDrop { .. } | Fault::SegDup { .. } | Fault::SegSwap { .. } | Fault::SegEmpty { .. } | Fault::CharReplace { .. } | Fault::NumReplace { .. } => {
                 if !k.is_string() {
                     fired = false;
@@ -447,7 +516,7 @@ impl VerifierWorld {
         let r = guarded(|| -> Option<bool> {
             match k {
                 Kind::SignOpen => {
-                    let mut m = vec![0u8; w.len().saturating_sub(64)];
+                    let mut m = vec![0xC3u8; w.len().saturating_sub(64)];
                     Some(crypto_sign_open(&mut m, w, &pk).is_ok())
                 }
                 Kind::SignVerifyDetached => {
@@ -633,7 +702,11 @@ impl World for VerifierWorld {
                         7 => Fault::Garbage { len: rng.usize_below(2 * k.overhead() + 65), kind: rng.below(12) as u8 },
                         8 => {
                             if k.overhead() == 64 {
-                                Fault::PublicKey { kind: rng.below(8) as u8, bit: rng.usize_below(256) }
+                                if rng.chance(1, 2) {
+                                    Fault::PublicKey { kind: rng.below(8) as u8, bit: rng.usize_below(256) }
+                                } else {
+                                    Fault::FieldValue { half: rng.below(3).min(1) as u8, value: rng.below(FIELD_VALUES as u64) as u8 }
+                                }
                             } else {
                                 Fault::Garbage { len: rng.usize_below(2 * k.overhead() + 65), kind: rng.below(12) as u8 }
                             }
